@@ -96,6 +96,9 @@ func strictContent(b []byte, recovered bool) string {
 	return tag
 }
 
+// bigN is the batch size of CONN_CREATE_BIG (BigN in the configurations of GluonCrash.tla).
+const bigN = 1001
+
 // Fixed remote ids of the scenario (fixture.VConn numbers what it creates: rb<n> mailboxes, rm<n> messages).
 const (
 	ridA, ridAK, ridB = "rb1", "rb2", "rb3"
@@ -338,6 +341,19 @@ func workerRun(cfg *wcfg) {
 		submit(imap.NewMessagesCreated(false, &imap.MessageCreated{
 			Message: imap.Message{ID: "c5", Flags: imap.NewFlagSet(imap.FlagFlagged), Date: msgDate},
 			Literal: l, MailboxIDs: []imap.MailboxID{ridA, ridB}, ParsedMessage: pm}))
+	case "CONN_CREATE_BIG":
+		// one MessagesCreated update with bigN new messages for B (more than one chunk of 1000)
+		var ms []*imap.MessageCreated
+		for i := 1; i <= bigN; i++ {
+			l := lit(fmt.Sprintf("b%d", i))
+			pm, err := imap.NewParsedMessage(l)
+			if err != nil {
+				fatal("parse: %v", err)
+			}
+			ms = append(ms, &imap.MessageCreated{Message: imap.Message{ID: imap.MessageID(fmt.Sprintf("cb%d", i)), Flags: imap.NewFlagSet(), Date: msgDate},
+				Literal: l, MailboxIDs: []imap.MailboxID{ridB}, ParsedMessage: pm})
+		}
+		submit(imap.NewMessagesCreated(false, ms...))
 	case "CONN_UPDATE":
 		l := lit("m1v2")
 		pm, err := imap.NewParsedMessage(l)
@@ -520,6 +536,7 @@ func observe(s *server) *obsState {
 			b.Err = fmt.Sprintf("FETCH 1:* (UID FLAGS): %s %s", res.Status, res.Text)
 			continue
 		}
+		var seqs []int
 		for _, l := range res.Untagged {
 			if !strings.Contains(l.Text, " FETCH (") {
 				continue
@@ -537,8 +554,22 @@ func observe(s *server) *obsState {
 				}
 			}
 			sort.Strings(m.Flags)
+			seq := 0
+			fmt.Sscanf(l.Text, "* %d FETCH", &seq)
+			seqs = append(seqs, seq)
 			b.Msgs = append(b.Msgs, m)
 		}
+		// the lines of one FETCH are produced by parallel workers and may arrive out of order: sequence order is what counts
+		idx := make([]int, len(b.Msgs))
+		for i := range idx {
+			idx[i] = i
+		}
+		sort.SliceStable(idx, func(x, y int) bool { return seqs[idx[x]] < seqs[idx[y]] })
+		sorted := make([]obsMsg, len(b.Msgs))
+		for i, j := range idx {
+			sorted[i] = b.Msgs[j]
+		}
+		b.Msgs = sorted
 		if len(b.Msgs) != exists {
 			b.Err = fmt.Sprintf("EXISTS %d but FETCH 1:* answered %d messages", exists, len(b.Msgs))
 		}
